@@ -46,6 +46,10 @@ pub fn run(tier: Tier) -> Run {
     let d_enum = tier.pick(4, 5);
     let d_clos = tier.pick(4, 6);
     let a = xs::enumerate(&alpha, d_enum, &f);
+    // a small alphabet around forward-declared pointers, deeper
+    let fw = xs::enumerate(&[BOp::Id, BOp::ForwardPointerFresh, BOp::StructOfForward, BOp::PointerToLast, BOp::TypePointer(None, 0), BOp::ConstantBit32, BOp::Continue, BOp::TypeVoid], tier.pick(5, 6), &f);
+    run.add_all(fw.viols.clone());
+    run.merge_outcomes(&fw.outcomes);
     let b = xs::closure(&alpha, d_clos, tier.pick(300_000, 6_000_000), &f);
     // ---- part 2a: per generated type method (all 64): every sequence of depth d over
     //      {id(), constant, implicit base, implicit with exactly ONE argument changed (each argument in turn),
@@ -150,6 +154,17 @@ pub fn run(tier: Tier) -> Run {
                 hs.push(vec![BOp::ConstantBit32, r.clone(), r.clone()]);
                 hs.push(vec![BOp::ConstantBit32, BOp::ConstantBit32, r.clone(), BOp::Id, r.clone()]);
             }
+        }
+        // forward-declared pointers: an id announced by OpTypeForwardPointer (taken from id(), or one a type request
+        // mentions) and not yet defined: requests that mention it dedup as any other, a pointer to such a type gets a fresh id
+        hs.push(vec![BOp::ForwardPointerFresh, BOp::StructOfForward, BOp::StructOfForward]);
+        hs.push(vec![BOp::ForwardPointerFresh, BOp::StructOfForward, BOp::PointerToLast, BOp::Id]);
+        hs.push(vec![BOp::Id, BOp::ForwardPointerFresh, BOp::StructOfForward, BOp::PointerToLast, BOp::PointerToLast, BOp::Id]);
+        for si in 0..sites.len() {
+            let x = BOp::TypeCall(si, None, 0);
+            hs.push(vec![BOp::ForwardPointerOfArg(si), x.clone(), x.clone()]);
+            hs.push(vec![x.clone(), BOp::ForwardPointerOfArg(si), x.clone(), BOp::PointerToLast, BOp::Id]);
+            hs.push(vec![BOp::ForwardPointerOfArg(si), x.clone(), BOp::PointerToLast, BOp::PointerToLast, BOp::Id]);
         }
         let steps: Vec<xs::Step> = hs.par_iter().map(|h| f(h)).collect();
         for st in steps {
